@@ -8,6 +8,6 @@ git -C /repo worktree add -q --detach "$wt" HEAD || exit 2
 if ! git -C "$wt" apply "$patch" 2>/dev/null; then
   if ! git -C "$wt" apply --3way "$patch" 2>/dev/null; then echo "patch does not apply"; git -C /repo worktree remove --force "$wt"; exit 2; fi
 fi
-cd /verif && EQSIG_REPO="$wt" /venv/bin/python harness/check.py "$pid" --tier "$tier"; rc=$?
+cd /verif && VERIF_EVIDENCE_DIR=/tmp/evid_seeded EQSIG_REPO="$wt" /venv/bin/python harness/check.py "$pid" --tier "$tier"; rc=$?
 git -C /repo worktree remove --force "$wt"
 echo "exit=$rc"
